@@ -19,13 +19,13 @@ def scenarios_for(tier):
     S.append(("tar2sqfs", "rich/gzip", rich, dict(comp="gzip", bs=4096)))
     # which tables the super block refers to decides what has to be on disk before it: fragment table x xattr table x export table
     B = 4096
-    for frag in (0, 1):
+    for fr in (0, 1):
         for xa in (0, 1):
             for ex in (0, 1):
-                spec = [E(b"d", "dir", 0o755), E(b"d/a", "file", content=content_pattern("a", B + (100 if frag else 0)), **({"xattrs": {b"user.k": b"v" * 20}} if xa else {}))]
-                lab = "tables/%s%s%s" % ("frag" if frag else "nofrag", "+xattr" if xa else "", "+export" if ex else "")
-                S.append(("gensquashfs", lab, spec, dict(comp=("gzip", "lz4", "zstd", "xz")[(frag * 4 + xa * 2 + ex) % 4], bs=B, e=ex)))
-                S.append(("tar2sqfs", lab, spec, dict(comp=("xz", "zstd", "lz4", "gzip")[(frag * 4 + xa * 2 + ex) % 4], bs=B, e=ex)))
+                spec = [E(b"d", "dir", 0o755), E(b"d/a", "file", content=content_pattern("a", B + (100 if fr else 0)), **({"xattrs": {b"user.k": b"v" * 20}} if xa else {}))]
+                lab = "tables/%s%s%s" % ("frag" if fr else "nofrag", "+xattr" if xa else "", "+export" if ex else "")
+                S.append(("gensquashfs", lab, spec, dict(comp=("gzip", "lz4", "zstd", "xz")[(fr * 4 + xa * 2 + ex) % 4], bs=B, e=ex)))
+                S.append(("tar2sqfs", lab, spec, dict(comp=("xz", "zstd", "lz4", "gzip")[(fr * 4 + xa * 2 + ex) % 4], bs=B, e=ex)))
     # an output file that already exists and holds a larger valid image (-f): stale bytes behind the crash point must not complete an image
     S.append(("gensquashfs", "overwrite-larger-image", small, dict(comp="gzip", bs=4096, preexisting=1)))
     S.append(("tar2sqfs", "overwrite-larger-image", small, dict(comp="gzip", bs=4096, preexisting=1)))
